@@ -247,6 +247,12 @@ def run_history(fam, kind, impl, rng, rec, h):
         aim = None
         cur = rng.choice(cursors) if cursors else None
         w = ls.current_walk() if is_tree else None
+        if w is not None:
+            w.release()
+        if conn is not None and rng.random() < .5:
+            # (the walk re-activated every node: sweep again so that the
+            # mutation itself meets ghosts)
+            conn.cache.minimize()
         if cur is not None and cur.last is not None and rng.random() < 0.6:
             k = cur.last
             leaf = None
